@@ -287,7 +287,8 @@ func rulesC04(c *Ctx) {
 		}
 		c.Check(ok, "R4", "fshelper.Copy runs, waits, reports", cp.Pos(), "Run -> Wait -> return ToError(Errors())", "the tree copy does not wait for the walk or does not return its errors")
 		n := 0
-		for _, g := range cp.AnonFuncs {
+		callbacks := loopCallbacks(cp)
+		for _, g := range callbacks {
 			facts := factsFor(g)
 			for _, ci := range Calls(g) {
 				call, isCall := ci.Instr.(*ssa.Call)
@@ -315,8 +316,43 @@ func rulesC04(c *Ctx) {
 			}
 		}
 		// the per-file callback reports success only after the stream copy ran
+		// the per-directory callback creates the visited directory itself (not merely its parent):
+		// otherwise empty directories are missing from the copy
+		for _, g := range loopCallbacksOf(cp, "OnDir") {
+			ps := stringParams(g)
+			if len(ps) == 0 {
+				continue
+			}
+			sub := ps[len(ps)-1]
+			okDir, seen := false, false
+			for _, h := range append([]*ssa.Function{g}, reachableSamePkg(g, 2)...) {
+				for _, ci := range Calls(h) {
+					if ci.Method == nil || ci.Method.Name() != "MkdirAll" {
+						continue
+					}
+					for _, o := range Origins(ci.Arg(0), FlowOpts{LiftParams: 2}) {
+						if o.Val != ssa.Value(sub) {
+							continue
+						}
+						seen = true
+						viaDir := false
+						for _, st := range o.Path {
+							if st == "Dir" {
+								viaDir = true
+							}
+						}
+						if !viaDir {
+							okDir = true
+						}
+					}
+				}
+			}
+			n++
+			c.Check(okDir || !seen && false, "R4", "per-directory callback of fshelper.Copy creates the visited directory", g.Pos(), "MkdirAll(subPath) on the destination",
+				"the per-directory callback does not create the visited directory itself (only its parent, or nothing) — empty directories of the source are missing from the copy although Copy returns nil")
+		}
 		scName := mq(helperPkg, "", "StreamCopy")
-		for _, g := range cp.AnonFuncs {
+		for _, g := range callbacks {
 			scs := CallsTo(g, scName)
 			if len(scs) == 0 || errResultIndex(g.Signature) < 0 {
 				continue
@@ -641,4 +677,47 @@ func closesFieldHolding(ci *CallInfo, vals []ssa.Value) bool {
 		}
 	}
 	return false
+}
+
+// loopCallbacks: the functions a function (or its private helpers) stores into
+// the OnDir / OnFile slots of an fsloop.LoopData: literals, method values or
+// named functions.
+func loopCallbacks(f *ssa.Function) []*ssa.Function {
+	return append(loopCallbacksOf(f, "OnFile"), loopCallbacksOf(f, "OnDir")...)
+}
+
+func loopCallbacksOf(f *ssa.Function, slot string) []*ssa.Function {
+	var out []*ssa.Function
+	seen := map[*ssa.Function]bool{}
+	for _, g := range append(withClosures(f), reachableSamePkg(f, 2)...) {
+		eachInstr(g, func(_ *ssa.BasicBlock, _ int, in ssa.Instruction) {
+			st, ok := in.(*ssa.Store)
+			if !ok {
+				return
+			}
+			fa, ok := st.Addr.(*ssa.FieldAddr)
+			if !ok || !strings.HasSuffix(fieldName(fa), "LoopData."+slot) {
+				return
+			}
+			var fn *ssa.Function
+			switch x := unwrapChange(resolve(st.Val)).(type) {
+			case *ssa.MakeClosure:
+				fn, _ = x.Fn.(*ssa.Function)
+				if fn != nil && strings.HasSuffix(fn.Name(), "$bound") && fn.Object() != nil {
+					if fo, ok := fn.Object().(*types.Func); ok {
+						if real := fn.Prog.FuncValue(fo); real != nil {
+							fn = real
+						}
+					}
+				}
+			case *ssa.Function:
+				fn = x
+			}
+			if fn != nil && !seen[fn] {
+				seen[fn] = true
+				out = append(out, fn)
+			}
+		})
+	}
+	return out
 }
